@@ -712,14 +712,21 @@ func (c20LogTrap) Write(p []byte) (int, error) { panic(c20Abort(strings.TrimSpac
 type c20Table struct {
 	entries []c20Entry
 	seq     []string // Comment|Src|Dst per entry, in table order
+	ctx     *Context
 }
 
 // c20Find runs the real FindRedirects in the current directory with a fresh
 // Context.
-func c20Find() (tab c20Table, fail *vlib.Failure) {
+// c20TrapLog installs the log trap and returns the function that removes it.
+func c20TrapLog() func() {
 	log.SetOutput(c20LogTrap{})
-	defer log.SetOutput(os.Stderr)
+	return func() { log.SetOutput(os.Stderr) }
+}
+
+func c20Find() (tab c20Table, fail *vlib.Failure) {
+	defer c20TrapLog()()
 	ctx := &Context{Architectures: []string{"amd64"}}
+	tab.ctx = ctx
 	pc := vlib.Catch(func() { ctx.FindRedirects() })
 	if pc.Panicked {
 		if msg, ok := pc.Value.(c20Abort); ok {
@@ -813,11 +820,13 @@ func c20CheckDir(dir string, model []c20Entry, reps int) *vlib.Failure {
 		return vlib.Failf("redirect table differs from the annotations of the tree: %d entries for %d annotations; missing [%s]; not annotated [%s]",
 			len(first.entries), len(model), c20Clip(missing), c20Clip(unexpected))
 	}
+	var second c20Table
 	for i := 1; i < reps; i++ {
 		again, fail := c20Find()
 		if fail != nil {
 			return fail
 		}
+		second = again
 		if strings.Join(again.seq, "\n") == strings.Join(first.seq, "\n") {
 			continue
 		}
@@ -833,7 +842,10 @@ func c20CheckDir(dir string, model []c20Entry, reps int) *vlib.Failure {
 		return vlib.Failf("building the same tree again (fresh Context, %d builds) gave the same %d entries in a different order, so the redirect table in the image is not reproducible; entries: [%s]",
 			reps, len(first.entries), c20Clip(c20Sorted(first.entries)))
 	}
-	return nil
+	if second.ctx == nil {
+		panic("c20: fewer than two builds")
+	}
+	return c20CheckImage(first.ctx, second.ctx, first.entries)
 }
 
 func c20Run(c c20Case) *vlib.Failure {
